@@ -20,7 +20,10 @@ RULE = ('competition prefixes: every k-th distinct state of a breadth-first enum
         '(state, heights, cards, bests, places, trials) / card equality modulo pass marks / every interleaving accepted '
         'call-by-call with the same outcome; non-trivial = a prefix with >= 2 athletes having >= 2 trials each at one height, '
         'or containing a jump-off; distinct by (cards, heights)')
-ASSUMPTIONS = ['prefixes stay inside specified territory (no pass inside a jump-off, no competition without a clearance)',
+ASSUMPTIONS = ['all three clauses are judged for prefixes inside the territory the rules speak about (no pass inside a jump-off, '
+               'bar not moved before everybody jumped, at least one clearance); beyond it (plays continued for 30 arbitrary '
+               'calls) places are undefined and the unchanged library ranks a re-imported card differently, so only the log '
+               'replay (in full) and the card round trip on state, heights, cards and bests are judged there',
                'the order of athletes with equal places in ranked_jumpers is deliberately not observed']
 
 
